@@ -461,7 +461,8 @@ class Folder:
                 if md is not None:
                     return self.fold_def(md)
             return Unknown('attr %s of %r' % (attr, base))
-        if isinstance(base, str) and attr in ('upper', 'lower', 'format', 'join', 'strip', 'capitalize', 'title'):
+        if isinstance(base, str) and attr in ('upper', 'lower', 'format', 'join', 'strip', 'capitalize', 'title',
+                                              'startswith', 'endswith', 'lstrip', 'rstrip', 'replace'):
             return _BoundPy(base, attr)
         if isinstance(base, (frozenset, set)) and attr in ('union', 'difference', 'intersection', 'issubset'):
             return _BoundPy(base, attr)
